@@ -142,7 +142,6 @@ namespace {
                 }
             }
         });
-        sim_quiesce(2000000);
         while (!P.all_finished())
         {
             // everybody left is blocked and the program has no count-downs left: main supplies them
@@ -301,9 +300,9 @@ namespace {
                 BS.departed[(size_t) k]++;
             }
         });
-        sim_quiesce(3000000);
-        while (!P.all_finished()) main_pause();
+        while (!P.all_finished()) main_pause(3000000);
         P.join_os();
+        sim_quiesce(3000000);
         VH_CHECK(BS.completions == phases, "C09.barrier.completion_count",
             "%d completion calls for %d phases", BS.completions, phases);
         pk::stop();
@@ -370,7 +369,6 @@ namespace {
                     yield_here(kinds[(size_t) me], (int) op.v[2]);
             }
         });
-        sim_quiesce(2000000);
         while (!P.all_finished())
         {
             if (ES.blocked == P.n - P.nfinished && ES.set_inv == 0)
@@ -470,9 +468,9 @@ namespace {
                 }
             }
         });
-        sim_quiesce(2000000);
         while (!P.all_finished()) main_pause();
         P.join_os();
+        sim_quiesce(2000000);
         if (!prog.empty())
             VH_CHECK(OS.successes == 1, "C09.once.count", "callable succeeded %d times", OS.successes);
         pk::stop();
